@@ -22,7 +22,7 @@ DECIDED = ["D1 materials before / products after the command", "D2 no silent rep
 UNDECIDED = ["which files a walk reaches, symlink resolution (relative targets), cycle handling, path normalisation, digest standard-conformance (file-system and dependency behaviour)"]
 TRUSTED = ["walkdir visits every entry reachable under a root", "ring digests", "std::io::Read contract"]
 ASSUMPTIONS = []
-FLOORS = {"C18/D1": 5, "C18/D2": 2, "C18/D3": 5, "C18/D4": 4, "C18/D5": 1, "C18/D6": 2, "C18/D7": 1}
+FLOORS = {"C18/D1": 5, "C18/D2": 1, "C18/D3": 5, "C18/D4": 4, "C18/D5": 1, "C18/D6": 2, "C18/D7": 1}
 
 
 def run(ctx):
@@ -383,6 +383,25 @@ def run(ctx):
                     # one side: the candidate (loop element); other side: the running best = {initial constant, previous candidates}
                     cand = [s_ for s_ in sides if s_ and s_ <= set(elem)]
                     best = [s_ for s_ in sides if any(k == "const" for (k, i, p) in s_) and any((k, i, p) in elem for (k, i, p) in s_)]
+                    if cand and not best:
+                        # the running best kept as Option<(prefix, rest)> instead of a sentinel "": the other length is taken from a
+                        # loop-carried local (several definitions) that is filled from earlier candidates
+                        for o in (c[1], c[2]):
+                            for l in b.trace(o):
+                                if not (l.kind == "call" and callee_name(l.data[1]) in ("core::str::len", "str::len")):
+                                    continue
+                                pz = op_place(l.data[1]["args"][0])
+                                for _ in range(8):
+                                    if pz is None:
+                                        break
+                                    if len(b.defs.get(pz["l"], [])) >= 2 and any((k, i, p)[:2] == list(elem)[0][:2] for (k, i, p) in root_ids(b, {"l": pz["l"], "p": []})):
+                                        best = [set(elem)]
+                                        break
+                                    dz = b.single_def(pz["l"])
+                                    if dz is None or dz.kind != "assign":
+                                        break
+                                    rz = dz.node["rv"]
+                                    pz = rz["place"] if rz["k"] in ("ref",) else (op_place(rz["op"]) if rz["k"] == "use" else None)
                     if cand and best:
                         okl = True
                         detail = "edge bb%d compares len(best prefix so far) with len(candidate prefix) (%s)" % (e[0], c[0])
